@@ -145,14 +145,20 @@ Proof.
   cbn. apply IH.
 Qed.
 
-(* a source with ammo that reports its end on a read of its own, passes > 0, no limit: the guard never refuses a rewind,
-   the provider ends after `passes` passes having handed out passes * a ammo *)
-Lemma jd_passes_counts : forall v a passes n pc d db fuel,
+(* a source with ammo, passes > 0, no limit, and either the guard keeps an io.EOF that comes with data back or the
+   source reports its end on a read of its own: the guard never refuses a rewind, the provider ends after `passes` passes
+   having handed out passes * a ammo *)
+Lemma jd_passes_counts : forall v a pend,
+  jv_defers_eof v = true \/ pend = 0 ->
+  forall passes n pc d db fuel,
   0 < a -> 0 < n -> pc + n = passes -> db <= d -> n <= fuel ->
-  jd_passes fuel v passes 0 a 0 true pc d db = (JdNil, d + n * a).
+  jd_passes fuel v passes 0 a pend true pc d db = (JdNil, d + n * a).
 Proof.
-  intros v a passes n. revert passes. induction n as [|n IH]; intros passes pc d db fuel Ha Hn Hp Hdb Hf; [lia|].
-  destruct fuel as [|f]; [lia|]. cbn [jd_passes negb]. rewrite Nat.sub_0_r.
+  intros v a pend Hd passes n.
+  assert (Hs : (if jv_defers_eof v then 0 else pend) = 0)
+    by (destruct Hd as [Hd | Hd]; rewrite Hd; [reflexivity | destruct (jv_defers_eof v); reflexivity]).
+  revert passes. induction n as [|n IH]; intros passes pc d db fuel Ha Hn Hp Hdb Hf; [lia|].
+  destruct fuel as [|f]; [lia|]. cbn [jd_passes negb]. rewrite Hs, Nat.sub_0_r.
   replace (jd_lim_reached 0 (d + a)) with false by reflexivity.
   destruct n as [|n'].
   - replace (passes =? 0) with false by (symmetry; apply Nat.eqb_neq; lia).
@@ -176,19 +182,20 @@ Proof.
     replace (limit <=? d + a) with true by (symmetry; apply Nat.leb_le; lia). reflexivity.
   - cbn [jd_passes negb]. destruct (jd_lim_reached limit (d + a)); [reflexivity|].
     destruct ((passes =? 0) || (S pc <? passes)); [|reflexivity].
-    destruct (jv_guard v passes && (d + a - pend =? db)); [reflexivity|].
+    match goal with |- context [jv_guard v passes && ?c] => destruct (jv_guard v passes && c) end; [reflexivity|].
     apply IH; lia.
 Qed.
 
-(* the full statement "passes passes hand out passes * a ammo" is FALSE of a source that can be sought and hands all its
-   data out in one read together with io.EOF: the guard, asked to rewind inside that read, sees that nothing was decoded
-   yet and refuses -- one pass only, whatever passes says (0 = unlimited included) *)
+(* sensitivity: WITHOUT the guard's own Read the statement "passes passes hand out passes * a ammo" is false of a source
+   that can be sought and hands all its data out in one read together with io.EOF: the guard, asked to rewind inside that
+   read, sees that nothing was decoded yet and refuses -- one pass only, whatever passes says (0 = unlimited included) *)
 Lemma jd_passes_eof_with_data_one_pass : forall v a passes fuel,
+  jv_defers_eof v = false ->
   0 < a -> passes <> 1 -> jv_guard v passes = true ->
   jd_passes (S fuel) v passes 0 a a true 0 0 0 = (JdNil, a).
 Proof.
-  intros v a passes fuel Ha Hp Hg. cbn [jd_passes negb Nat.add].
+  intros v a passes fuel Hd Ha Hp Hg. cbn [jd_passes negb Nat.add].
   replace (jd_lim_reached 0 a) with false by reflexivity.
-  rewrite Hg, Nat.sub_diag. cbn [Nat.eqb andb].
+  rewrite Hg, Hd, Nat.sub_diag. cbn [Nat.eqb andb].
   destruct passes as [|[|p]]; [reflexivity|contradiction Hp; reflexivity|reflexivity].
 Qed.
